@@ -82,8 +82,54 @@ fn jitter(_k: VmInt) -> VmInt {
 }
 
 fn nap(ms: VmInt) -> VmInt {
-    std::thread::sleep(Duration::from_millis(ms.clamp(0, 50) as u64));
+    // the polling receiver has no time budget any more: sleep longer the longer it has been polling
+    // (2 ms ... 50 ms) so that a slow sender costs at most a few thousand iterations
+    thread_local! {
+        static NAPS: std::cell::Cell<u64> = const { std::cell::Cell::new(0) };
+    }
+    let k = NAPS.with(|n| {
+        n.set(n.get() + 1);
+        n.get()
+    });
+    let d = (ms.clamp(0, 50) as u64 + k / 50).min(50);
+    std::thread::sleep(Duration::from_millis(d));
     0
+}
+
+// "has my peer (the sender of my channel) finished?" — lets a receiver poll without a time budget:
+// it gives up (result -1) only when the sender is done AND the queue is still empty, i.e. when
+// values were really lost, never because the sender was slow.
+static SENDER_DONE: [AtomicBool; 64] = [const { AtomicBool::new(false) }; 64];
+static N_CHANS: AtomicU64 = AtomicU64::new(0);
+thread_local! {
+    static TL_CHAN: std::cell::Cell<i64> = const { std::cell::Cell::new(-1) };
+}
+
+fn peer_done(_k: VmInt) -> VmInt {
+    let c = TL_CHAN.with(|c| c.get());
+    if c >= 0 && (c as usize) < 64 {
+        return SENDER_DONE[c as usize].load(Ordering::SeqCst) as VmInt;
+    }
+    // not called on the receiver's OS thread: done when every sender is done
+    let n = N_CHANS.load(Ordering::SeqCst) as usize;
+    (0..n.min(64)).all(|i| SENDER_DONE[i].load(Ordering::SeqCst)) as VmInt
+}
+
+fn set_chan(c: i64) {
+    TL_CHAN.with(|x| x.set(c));
+}
+
+fn sender_done(c: i64) {
+    if c >= 0 && (c as usize) < 64 {
+        SENDER_DONE[c as usize].store(true, Ordering::SeqCst);
+    }
+}
+
+fn reset_chans(n: usize) {
+    for f in SENDER_DONE.iter() {
+        f.store(false, Ordering::SeqCst);
+    }
+    N_CHANS.store(n as u64, Ordering::SeqCst);
 }
 
 fn load_rt(thread: &Thread) -> gluon::vm::Result<ExternModule> {
@@ -92,7 +138,8 @@ fn load_rt(thread: &Thread) -> gluon::vm::Result<ExternModule> {
         record! {
             tick => primitive!(1, tick),
             jitter => primitive!(1, jitter),
-            nap => primitive!(1, nap)
+            nap => primitive!(1, nap),
+            peer_done => primitive!(1, peer_done)
         },
     )
 }
@@ -341,8 +388,8 @@ fn gen_pair(rng: &mut Rng, big: bool) -> Unit {
     }
     let w2 = alloc_work(rng, &mut r, big);
     r.push_str(&format!(
-        "rec let go receiver n acc naps =\n    if n == 0 then wrap acc\n    else\n        do x = recv receiver\n        match x with\n        | Ok v -> go receiver (n - 1) (acc + {}) naps\n        | Err _ ->\n            if naps == 0 then wrap (0 - 1)\n            else\n                let z = rt.nap 2\n                go receiver n (acc + z) (naps - 1)\n",
-        val
+        "rec let go receiver n acc naps =\n    if n == 0 then wrap acc\n    else\n        do x = recv receiver\n        match x with\n        | Ok v -> go receiver (n - 1) (acc + {}) naps\n        | Err _ ->\n            if rt.peer_done 0 == 1 then\n                do y = recv receiver\n                match y with\n                | Ok v -> go receiver (n - 1) (acc + {}) naps\n                | Err _ -> wrap (0 - 1)\n            else\n                let z = rt.nap 2\n                go receiver n (acc + z) naps\n",
+        val, val
     ));
     r.push_str(&format!("\\receiver -> go receiver {} (m.v + {}) 5000\n", count, w2));
     Unit {
@@ -373,7 +420,7 @@ fn gen_scenario(id: usize, rng: &mut Rng, world: &World, n: usize) -> Scenario {
     let mut r = Rng::new(seed);
     // every forced collection marks the whole live heap: with many threads keep the stride larger
     let stride = if n >= 8 { *r.pick(&[3usize, 5, 17, 64, 0]) } else { *r.pick(&[1usize, 2, 3, 5, 17, 64, 0]) };
-    let fits = |i: &usize| !world.units[*i].big || stride == 0 || stride >= 17;
+    let fits = |i: &usize| !world.units[*i].big || stride == 0 || stride >= 64;
     let plain: Vec<usize> = (0..world.units.len()).filter(|i| world.units[*i].kind == "plain").filter(fits).collect();
     let pairs: Vec<usize> = (0..world.units.len()).filter(|i| world.units[*i].kind == "pair").filter(fits).collect();
     let async_vm = r.chance(1, 8);
@@ -392,8 +439,15 @@ fn gen_scenario(id: usize, rng: &mut Rng, world: &World, n: usize) -> Scenario {
     let nested = r.chance(1, 2);
     let mut threads = vec![];
     let mut chans = vec![];
+    let mut big_used = false;
     for _ in 0..n_pairs {
-        let u = *r.pick(&pairs);
+        let mut u = *r.pick(&pairs);
+        // at most one big unit per scenario (a forced collection marks the whole live heap; several
+        // big heaps + the hook's global mutex make a scenario take minutes, which is not a finding)
+        if world.units[u].big && big_used {
+            u = *pairs.iter().find(|i| !world.units[**i].big).unwrap_or(&u);
+        }
+        big_used |= world.units[u].big;
         let c = chans.len() as i64;
         chans.push(world.units[u].elem.clone());
         for role in ["send", "recv"] {
@@ -401,7 +455,11 @@ fn gen_scenario(id: usize, rng: &mut Rng, world: &World, n: usize) -> Scenario {
         }
     }
     while threads.len() < n {
-        let u = *r.pick(&plain);
+        let mut u = *r.pick(&plain);
+        if world.units[u].big && big_used {
+            u = *plain.iter().find(|i| !world.units[**i].big).unwrap_or(&u);
+        }
+        big_used |= world.units[u].big;
         threads.push(ThreadSpec { parent: -1, unit: u, role: "plain".into(), chan: -1, delay_us: 0, yields: 0 });
     }
     // shuffle (start order = spawn order of the OS threads)
@@ -581,16 +639,20 @@ fn solo_main(path: &str) {
             let th = root.new_thread().expect("new_thread");
             res.push(run_one(&th, &format!("c14_u{}", ui), &u.src, Arg::None, None));
         } else {
+            reset_chans(1);
+            set_chan(0);
             let ch = make_chan(&root, &u.elem, None).expect("channel");
             let a = root.new_thread().expect("new_thread");
             let b = root.new_thread().expect("new_thread");
             match ch {
                 Chan::I(s, r) => {
                     res.push(run_one(&a, &format!("c14_u{}s", ui), &u.src, Arg::SI(s.unwrap()), None));
+                    sender_done(0);
                     res.push(run_one(&b, &format!("c14_u{}r", ui), &u.recv_src, Arg::RI(r.unwrap()), None));
                 }
                 Chan::S(s, r) => {
                     res.push(run_one(&a, &format!("c14_u{}s", ui), &u.src, Arg::SS(s.unwrap()), None));
+                    sender_done(0);
                     res.push(run_one(&b, &format!("c14_u{}r", ui), &u.recv_src, Arg::RS(r.unwrap()), None));
                 }
             }
@@ -675,6 +737,7 @@ fn child_main(path: &str) {
         let _ = std::io::stdout().flush();
         std::process::exit(4)
     };
+    reset_chans(sc.chans.len());
     let mut chans: Vec<Chan> = vec![];
     for e in &sc.chans {
         match catch_unwind(AssertUnwindSafe(|| make_chan(&root, e, rt.as_ref()))) {
@@ -728,8 +791,13 @@ fn child_main(path: &str) {
         let done = done.clone();
         let handle = handle.clone();
         let (delay, yields) = (t.delay_us, t.yields);
+        let (my_chan, is_sender) = (t.chan, t.role == "send");
         if sc.sequential {
+            set_chan(my_chan);
             let r = run_one(&th, &format!("c14_t{}", i), &src, arg, handle.as_ref());
+            if is_sender {
+                sender_done(my_chan);
+            }
             println!("DONE {} {}", i, r);
             seq_results.push((i, r));
             continue;
@@ -746,7 +814,11 @@ fn child_main(path: &str) {
                     if delay > 0 {
                         std::thread::sleep(Duration::from_micros(delay));
                     }
+                    set_chan(my_chan);
                     let r = run_one(&th, &format!("c14_t{}", i), &src, arg, handle.as_ref());
+                    if is_sender {
+                        sender_done(my_chan);
+                    }
                     done.fetch_add(1, Ordering::SeqCst);
                     println!("DONE {} {}", i, r);
                     let _ = std::io::stdout().flush();
@@ -1598,7 +1670,7 @@ fn main() {
         }
     });
     // A watchdog expiry while the process was still computing may be plain slowness of a loaded
-    // machine (other builders): such scenarios are re-run once, alone, with twice the
+    // machine (other builders): such scenarios are re-run once, alone, with six times the
     // watchdog, and the second outcome is the one that is judged.  (A sleeping process is a
     // deadlock whatever the load and is not re-run.)
     let mut reruns = 0u64;
@@ -1613,7 +1685,7 @@ fn main() {
                 reruns += 1;
                 let f = work.join(format!("sc{}-rerun.json", sc.id));
                 std::fs::write(&f, serde_json::to_string(sc).unwrap()).unwrap();
-                let o = run_child("child", &f, Duration::from_secs(2 * watchdog_s));
+                let o = run_child("child", &f, Duration::from_secs(6 * watchdog_s));
                 let _ = std::fs::remove_file(&f);
                 oc.insert(sc.id, o);
             }
